@@ -30,7 +30,7 @@ BLANK_EXTS = [".txt", ".csv", ".tsv", ".md", ".json"]      # extractors that acc
 
 
 def build_members(seed: int, n: int, corrupt: int | None, with_noise: bool, prefix: str = "", dict_size: int | None = None, blanks: str | None = None,
-                  updates: str | None = None):
+                  updates: str | None = None, repetitive: str | None = None):
     """-> (members for archives.build, eligible list [(name, data)], corrupted member name or None)
 
     ``prefix``: every member name starts with it ("./" = what `tar -czf x.tgz .`, `zip -r x.zip .` and 7z with ./ arguments write; the
@@ -39,7 +39,10 @@ def build_members(seed: int, n: int, corrupt: int | None, with_noise: bool, pref
     really contains matches that need the whole declared dictionary.  ``blanks``: "empty" interleaves zero-length members of the plain-text
     family (and directories next to them), "filled" is their control twin (the same members holding two bytes).  ``updates``: "same-name"
     appends newer versions of one or two earlier members under the *same* member name, as the update / append modes of tar (-u, -r) and of
-    zipfile do (the archive then repeats a name; every occurrence is a member with bytes of its own); "renamed" is the control twin."""
+    zipfile do (the archive then repeats a name; every occurrence is a member with bytes of its own); "renamed" is the control twin.
+    ``repetitive``: "run" adds one or two very repetitive members of a few hundred KiB (the CSV export of a nearly empty sheet, a log of
+    identical lines, one repeated character: deflate / LZMA shrink them 500:1 and more, so they dominate the archive's overall ratio although
+    every size stays far below the per-member limit); "plain" is the control twin (the same members with a few KiB of ordinary text)."""
     from vlib.gen import docs, mutate
     rng = random.Random(f"c10:{seed}")
     members, eligible = [], []
@@ -131,6 +134,19 @@ def build_members(seed: int, n: int, corrupt: int | None, with_noise: bool, pref
                 members.append({"name": f"{d}tool{i}.exe", "data": b"MZ\x90\x00" + b"qr00003z", "type": "file"})
             else:
                 members.append({"name": f"{d}inner{i}.zip", "data": archives.build("zip-stored", [{"name": "x.txt", "data": b"qr00004z nested\n"}]), "type": "file"})
+    if repetitive:
+        rr = random.Random(f"c10r:{seed}")
+        for k in range(rr.randint(1, 2)):
+            kind = rr.choice(["csv", "log", "char", "json"])
+            nm = f"{prefix}{rr.choice(dirs)}" + {"csv": f"export{k}.csv", "log": f"app{k}.txt", "char": f"ruler{k}.md", "json": f"zeros{k}.json"}[kind]
+            size = rr.choice([200, 400, 600, 1000]) * 1024
+            unit = {"csv": b";;;;;;;\r\n", "log": b"2024-01-02 03:04:05 INFO heartbeat ok\n", "char": b"-", "json": b"0, "}[kind]
+            body = b"qr00008z\n" + (unit * (size // len(unit) + 1))[:size] if repetitive == "run" else b"qr00008z\n" + bytes(rr.choice(b"abcdefghij klmnop\n") for _ in range(3000))
+            at = rr.randint(0, len(members))
+            members.insert(at, {"name": nm, "data": body, "type": "file"})
+            # eligible follows archive order: insert behind the eligible members that precede position ``at``
+            before = {m["name"] for m in members[:at]}
+            eligible.insert(sum(1 for en, _ in eligible if en in before), (nm, body))
     if updates and fmts:
         ru = random.Random(f"c10u:{seed}")
         for j, name in enumerate(ru.sample(sorted(fmts), min(len(fmts), ru.randint(1, 2)))):
@@ -153,23 +169,27 @@ def work(case):
     arm_cpu(120)
     blanks = "empty" if case.get("blanks") else None
     upd = "same-name" if case.get("updates") else None
-    out = _run(case, case.get("prefix", ""), case.get("dict"), blanks, updates=upd)
+    rep_ = "run" if case.get("repetitive") else None
+    out = _run(case, case.get("prefix", ""), case.get("dict"), blanks, updates=upd, repetitive=rep_)
+    if out["problems"] and rep_:
+        # control twin for the repetitive members alone: the same members holding a few KiB of ordinary text
+        out["repetitive_twin_problems"] = sorted({p["sym"] for p in _run(case, case.get("prefix", ""), case.get("dict"), blanks, updates=upd, repetitive="plain")["problems"]})
     if out["problems"] and upd:
         # control twin for the repeated names alone: the newer versions under names of their own
-        out["update_twin_problems"] = sorted({p["sym"] for p in _run(case, case.get("prefix", ""), case.get("dict"), blanks, updates="renamed")["problems"]})
+        out["update_twin_problems"] = sorted({p["sym"] for p in _run(case, case.get("prefix", ""), case.get("dict"), blanks, updates="renamed", repetitive=rep_)["problems"]})
     if out["problems"] and blanks:
         # control twin for the empty members alone: the same archive with two bytes in each of them
-        out["blank_twin_problems"] = sorted({p["sym"] for p in _run(case, case.get("prefix", ""), case.get("dict"), "filled", updates=upd)["problems"]})
+        out["blank_twin_problems"] = sorted({p["sym"] for p in _run(case, case.get("prefix", ""), case.get("dict"), "filled", updates=upd, repetitive=rep_)["problems"]})
     if out["problems"] and (case.get("prefix") or case.get("dict")) and out.get("blank_twin_problems", True):
         # control twin: the same members under plain names in a folder with the writer's default dictionary
-        out["twin_problems"] = sorted({p["sym"] for p in _run(case, "", case.get("dict"), "filled" if blanks else None, twin=True, updates="renamed" if upd else None)["problems"]})
+        out["twin_problems"] = sorted({p["sym"] for p in _run(case, "", case.get("dict"), "filled" if blanks else None, twin=True, updates="renamed" if upd else None, repetitive="plain" if rep_ else None)["problems"]})
     return out
 
 
-def _run(case, prefix, dict_size, blanks=None, twin=False, updates=None):
+def _run(case, prefix, dict_size, blanks=None, twin=False, updates=None, repetitive=None):
     from vlib import obs
     from sharepoint2text.parsing import router
-    members, eligible, corrupted = build_members(case["seed"], case["n"], case.get("corrupt"), case.get("noise", True), prefix, dict_size, blanks, updates)
+    members, eligible, corrupted = build_members(case["seed"], case["n"], case.get("corrupt"), case.get("noise", True), prefix, dict_size, blanks, updates, repetitive)
     layout = case["layout"]
     data = archives.build(layout, members, dict_size=None if twin else dict_size)
     apath = "dir/arch" + archives.ext_of(layout)
@@ -268,6 +288,8 @@ def gen_cases(run):
             case = {"id": cid, "layout": layout, "seed": run.seed * 10000 + cid, "n": n, "corrupt": corrupt, "noise": r % 4 != 0}
             if r % 5 == 3 and not layout.startswith("7z") and n:
                 case["updates"] = True          # newer versions of earlier members appended under the same names (tar -u / -r, zipfile append)
+            if r % 6 == 4 or (layout.startswith("zip") and r % 3 == 0):
+                case["repetitive"] = True       # a member that compresses several hundred to one
             if r % 4 == 1:
                 case["blanks"] = True           # zero-length members of the plain-text family, next to directories
             if r % 6 == 2:
@@ -313,6 +335,10 @@ def main(run):
             feat = "empty-member"                       # the twin whose empty members hold two bytes is clean
             if case["layout"].startswith("7z"):
                 lc = "7z"                               # one mechanism for every coder / folder layout
+        if case.get("repetitive"):
+            run.count(("zip_deflated" if case["layout"] == "zip-deflated" else "7z" if case["layout"].startswith("7z") else "other") + "_archives_with_highly_compressible_member")
+            if feat == "clean" and ob["problems"] and ob.get("repetitive_twin_problems") == []:
+                feat = "highly-compressible-member"      # the twin with ordinary text in those members is clean
         if case.get("updates"):
             run.count(("zip" if case["layout"].startswith("zip") else "tar") + "_archives_with_repeated_member_names")
         if feat == "clean" and ob["problems"] and case.get("updates") and ob.get("update_twin_problems") == []:
@@ -333,7 +359,9 @@ def main(run):
     for fmt in ("pax", "gnu", "ustar"):     # every TAR header format must have been read back uncompressed (detection by the tar magic) and compressed
         run.require(f"tar_{fmt}_uncompressed_archives", sum(n for l, n in per_layout.items() if archives.family(l) == "tar" and archives.tar_format(l) == fmt), 5)
         run.require(f"tar_{fmt}_compressed_archives", sum(n for l, n in per_layout.items() if archives.family(l).startswith("tar.") and archives.tar_format(l) == fmt), 15)
-    for k, lo in (("tar_archives_with_repeated_member_names", run.n(25, 250)), ("zip_archives_with_repeated_member_names", run.n(6, 60)),
+    for k, lo in (("zip_deflated_archives_with_highly_compressible_member", run.n(10, 100)), ("7z_archives_with_highly_compressible_member", run.n(60, 600)),
+                  ("other_archives_with_highly_compressible_member", run.n(30, 300)),
+                  ("tar_archives_with_repeated_member_names", run.n(25, 250)), ("zip_archives_with_repeated_member_names", run.n(6, 60)),
                   ("7z_archives_with_empty_text_members", run.n(60, 600)), ("zip_stored_archives_with_empty_text_members", run.n(5, 50)), ("other_archives_with_empty_text_members", run.n(25, 250)),
                   ("7z_archives_with_3x2^n_dictionary_and_far_matches", run.n(40, 400)), ("7z_archives_with_2^n_dictionary_and_far_matches", run.n(40, 400)),
                   ("archives_with_dot-slash_prefixed_names", run.n(60, 600))):
